@@ -11,6 +11,7 @@ from checks.c11 import StageCollector
 SENT = 'Zqsentinelx'
 MADE_BY_TRANSLATOR = re.compile(r'^(Main|Function\d+|Incorrect)$')
 OPEN, CLOSE = '([{', ')]}'
+NPICK = 36
 
 
 def balance(text):
@@ -159,9 +160,9 @@ class C12(PipelineCheck):
                     'member' if re.match(r'^global/[^/]+/functions\[\d+\]$', st_[0]) else 'local')
                 groups.setdefault((st_[3], st_[1], sc_), []).append(st_)
             picked = []
-            while len(picked) < 18 and any(groups.values()):
+            while len(picked) < NPICK and any(groups.values()):
                 for key_ in sorted(groups):
-                    if groups[key_] and len(picked) < 18:
+                    if groups[key_] and len(picked) < NPICK:
                         picked.append(groups[key_].pop())
             for (path, attr, idx, kind, expect) in picked:
                 p2 = pickle.loads(blob)
@@ -170,7 +171,7 @@ class C12(PipelineCheck):
                     continue
                 sent = tp.SimpleClassifier(SENT)
                 try:
-                    self.put(node, attr, idx, sent)
+                    pred = self.put(node, attr, idx, sent, lang)
                     t2 = translate(p2)
                 except SimAbort:
                     raise
@@ -178,7 +179,7 @@ class C12(PipelineCheck):
                     continue
                 obl['taint'] += 1
                 probes['taint_' + kind] = probes.get('taint_' + kind, 0) + 1
-                seen = SENT in t2
+                seen = (SENT in t2) if pred is None else bool(pred(text, t2))
                 want = expect(lang, node)
                 if want is None:
                     continue
@@ -188,8 +189,8 @@ class C12(PipelineCheck):
                                              .replace('ClassDeclaration:', ''), path) else 'local')
                     add('annotation-%s' % ('printed-but-absent' if seen else 'dropped'),
                         '%s|%s|%s' % (kind, type(node).__name__, scope),
-                        'stage %s: %s of %s %s is %s in the %s text although the program %s it' % (
-                            name, kind, type(node).__name__, getattr(node, 'name', ''),
+                        'stage %s: %s of %s %s [%s] is %s in the %s text although the program %s it' % (
+                            name, kind, type(node).__name__, getattr(node, 'name', ''), path,
                             'printed' if seen else 'not printed', lang,
                             'does not carry' if seen else 'carries'))
         extra = {'probes': probes, 'obligations': obl, 'feats': feats, 'nstage': len(feats),
@@ -392,6 +393,9 @@ class C12(PipelineCheck):
 
         def e_call_arg(lang, node):
             return True
+
+        def e_true(lang, node):
+            return True
         for node, path, parents in walk.iter_nodes(program):
             if isinstance(node, ast.VariableDeclaration):
                 if node.var_type is not None:
@@ -416,6 +420,40 @@ class C12(PipelineCheck):
                 if node.type_args and not node.__dict__.get('_can_infer_type_args'):
                     for i in range(len(node.type_args)):
                         sites.append((path, 'type_args', i, 'type_arg', e_call_arg))
+            # ---- element taint: declared types that are always carried, bounds, inheritance
+            # clauses, literals and operators (each must be reflected in the text)
+            if isinstance(node, ast.ParameterDeclaration):
+                in_lambda = any(isinstance(x, ast.Lambda) for x in parents[-1:])
+                if not in_lambda:
+                    sites.append((path, 'param_type', None, 'param_type', e_true))
+                    sites.append((path, 'vararg', None, 'flag_vararg', e_true))
+            elif isinstance(node, ast.FieldDeclaration):
+                sites.append((path, 'field_type', None, 'field_type', e_true))
+            elif isinstance(node, ast.ClassDeclaration):
+                for i, p_ in enumerate(node.type_parameters):
+                    if p_.bound is not None:
+                        sites.append((path, 'tparam_bound', i, 'tparam_bound', e_true))
+                for i, s_ in enumerate(node.superclasses):
+                    if isinstance(s_.class_type, tp.ParameterizedType):
+                        for j in range(len(s_.class_type.type_args)):
+                            sites.append((path, 'super_arg', (i, j), 'super_type_arg', e_true))
+            if isinstance(node, ast.FunctionDeclaration):
+                for i, p_ in enumerate(node.type_parameters):
+                    if p_.bound is not None:
+                        sites.append((path, 'tparam_bound', i, 'tparam_bound', e_true))
+            elif isinstance(node, ast.VariableDeclaration):
+                sites.append((path, 'is_final', None, 'flag_final_var', e_true))
+            elif isinstance(node, ast.Is):
+                sites.append((path, 'rexpr', None, 'is_type', e_true))
+                sites.append((path, 'is_not', None, 'flag_is_not', e_true))
+            elif isinstance(node, ast.BottomConstant):
+                if node.t is not None:
+                    sites.append((path, 't', None, 'bottom_cast', e_true))
+            elif isinstance(node, (ast.IntegerConstant, ast.RealConstant, ast.StringConstant,
+                                   ast.CharConstant, ast.BooleanConstant)):
+                sites.append((path, 'literal', None, 'literal', e_true))
+            elif isinstance(node, ast.BinaryOp) and type(node).VALID_OPERATORS:
+                sites.append((path, 'operator', None, 'operator', e_true))
         return sites
 
     @staticmethod
@@ -426,7 +464,10 @@ class C12(PipelineCheck):
         return None
 
     @staticmethod
-    def put(node, attr, idx, sent):
+    def put(node, attr, idx, sent, lang=None):
+        """apply one replacement; returns None (the sentinel type must be looked for) or a
+        predicate (text before, text after) -> bool saying whether the element is reflected"""
+        from src.ir import ast
         if attr == 'class_type':
             node.class_type.type_args[idx] = sent
         elif attr == 'type_args':
@@ -438,8 +479,52 @@ class C12(PipelineCheck):
         elif attr == 'ret_type':
             node.ret_type = sent
             node.inferred_type = sent
+        elif attr == 'tparam_bound':
+            node.type_parameters[idx].bound = sent
+        elif attr == 'super_arg':
+            i, j = idx
+            node.superclasses[i].class_type.type_args[j] = sent
+        elif attr in ('vararg', 'is_final'):
+            setattr(node, attr, not getattr(node, attr))
+            return lambda before, after: before != after
+        elif attr == 'is_not':
+            node.operator = ast.Operator('is', is_not=not node.operator.is_not)
+            return lambda before, after: before != after
+        elif attr == 'literal':
+            if isinstance(node, ast.IntegerConstant):
+                lit = 918273
+                node.literal = lit
+            elif isinstance(node, ast.RealConstant):
+                lit = '9182.53125'
+                node.literal = lit
+            elif isinstance(node, ast.BooleanConstant):
+                lit = 'false' if str(node.literal) == 'true' else 'true'
+                node.literal = lit
+            elif isinstance(node, ast.CharConstant):
+                lit = '~'
+                node.literal = lit
+            else:
+                lit = 'zqsentinelx'
+                node.literal = lit
+            lit = str(lit)
+            return lambda before, after: after.count(lit) > before.count(lit)
+        elif attr == 'operator':
+            valid = type(node).VALID_OPERATORS.get(lang) or type(node).ALL_OPERATORS
+            others = [o for o in valid if o != node.operator]
+            if not others:
+                return lambda before, after: True
+            new = others[0]
+            # prefer a replacement whose text is not a substring of the old operator's text
+            for o in others:
+                if str(o) not in str(node.operator):
+                    new = o
+                    break
+            node.operator = new
+            tok = str(new)
+            return lambda before, after: before != after and after.count(tok) > before.count(tok)
         else:
             setattr(node, attr, sent)
+        return None
 
     def collect(self, agg, res):
         d = agg.setdefault('c12', {'n': 0, 'feats': set()})
